@@ -7,3 +7,10 @@ for _p in layout_props.FAMILIES:
     CHECKS[_p] = layout_props.run_unary
 for _p in rel_props.FAMILIES:
     CHECKS[_p] = rel_props.run_relational
+
+import mon_props
+CHECKS["C18"] = mon_props.c18_check
+CHECKS["C15"] = mon_props.c15_check
+import geom_props
+CHECKS["C19"] = geom_props.c19_check
+CHECKS["C20"] = geom_props.c20_check
